@@ -314,6 +314,10 @@ def run(fx, tier):
     if 'R-DOM' not in v.rules:
         v.rule('R-DOM', 'reply matching on control code and packet identifier')
     reply_matching_rule(fx, v, 'C02')
+    # the watchdog (sentry) and the reader stop for good on an error from the internal DISCONNECT: it must complete
+    # without error when it merely met a reconnect (shared with C19)
+    from c19 import recovery_after_internal_disconnect
+    recovery_after_internal_disconnect(fx, v, 'C02')
     v.expect_min('R-VALUES', 40, 'completion sites + raw I/O sites')
     v.expect_min('R-CGRAPH', 60, 'request-continuation paths')
     v.expect_min('R-FLOW', 10, 're-send paths')
